@@ -405,7 +405,7 @@ where
 
                 this.waiter.close();
                 this.inner.set(InnerCheckoutConnecting::Connected);
-                Poll::Ready(Ok(register_connected(this.pool, *this.token, connection)))
+                Poll::Ready(Ok(checked_out(this.pool, *this.token, connection)))
             }
             CheckoutConnectingProj::Connecting(connector) => {
                 let result = ready!(connector.poll_connector(
@@ -474,6 +474,30 @@ where
     }
 }
 
+/// Wrap a connection which was taken out of the pool.
+///
+/// The pool kept its own handle to a shareable connection when this one was
+/// checked out, so only connections which can't be shared go back on drop.
+fn checked_out<C, B>(poolref: &PoolRef<C, B>, token: Token, connection: C) -> Pooled<C, B>
+where
+    C: PoolableConnection<B>,
+    B: Send + 'static,
+{
+    if connection.can_share() {
+        Pooled {
+            connection: Some(connection),
+            token: Token::zero(),
+            pool: PoolRef::none(),
+        }
+    } else {
+        Pooled {
+            connection: Some(connection),
+            token,
+            pool: poolref.clone(),
+        }
+    }
+}
+
 /// Register a connection with the pool referenced here.
 fn register_connected<C, B>(
     poolref: &PoolRef<C, B>,
@@ -524,11 +548,14 @@ where
         #[cfg(debug_assertions)]
         tracing::trace!(id=%self.id, "drop for checkout");
 
-        // A connection taken out of the pool but never handed to the caller goes back.
+        // A connection taken out of the pool but never handed to the caller goes back
+        // (the pool still has its own handle to a connection which can be shared).
         if let Some(connection) = self.as_mut().project().connection.take() {
-            if let Some(mut pool) = self.pool.lock() {
-                trace!("unused connection returned to pool");
-                pool.push(self.token, connection, self.pool.clone());
+            if !connection.can_share() {
+                if let Some(mut pool) = self.pool.lock() {
+                    trace!("unused connection returned to pool");
+                    pool.push(self.token, connection, self.pool.clone());
+                }
             }
         }
 
